@@ -368,10 +368,17 @@ class Exec:
     def e_FormattedValue(self, e, env):
         return self.ev(e.value, env)
 
+    def _def_time_defaults(self, c, env):
+        """default values are evaluated ONCE, when the def / lambda is executed (shared between calls)"""
+        a = c.node.args
+        c.default_vals = [self.ev(d, env) for d in a.defaults]
+        c.kw_default_vals = [None if d is None else self.ev(d, env) for d in a.kw_defaults]
+        return c
+
     def e_Lambda(self, e, env):
         f = env.function_frame()
         parent = f.fn if f is not None else None
-        return Closure(e, env, '<lambda>', cls=parent.cls if parent else None, module=parent.module if parent else None)
+        return self._def_time_defaults(Closure(e, env, '<lambda>', cls=parent.cls if parent else None, module=parent.module if parent else None), env)
 
     def e_IfExp(self, e, env):
         return self.ev(e.body, env) if self.truth(self.ev(e.test, env)) else self.ev(e.orelse, env)
@@ -791,6 +798,8 @@ class Exec:
         if isinstance(o, OptV):
             self.implicit(f'None.{name}', z3.Not(self.zbool(o.isnone)), 'AttributeError')
             o = o.val
+        if isinstance(o, (ClsTok, ClassRef)) and name in ('__name__', '__qualname__'):
+            return o.name.split('.')[-1]
         if o is None:
             if name == '__class__':
                 return B.TypeTok('NoneType', lambda ex_, *a: None)
@@ -1079,7 +1088,7 @@ class Exec:
         raise Unsupported(f'iterate({it!r})')
 
     # ------------------------------------------------------------------ comprehensions
-    def comprehend(self, node, env):
+    def comprehend(self, node, env, until=None):
         """comprehension whose iterables have concrete length: ordinary (forking) evaluation per element.
         Returns a list of element values ((key, value) pairs for DictComp), or None if an iterable is symbolic."""
         out = []
@@ -1090,6 +1099,8 @@ class Exec:
                     out.append((self.ev(node.key, cenv), self.ev(node.value, cenv)))
                 else:
                     out.append(self.ev(node.elt, cenv))
+                    if until is not None and until(out[-1]):
+                        raise _StopComp()
                 return True
             g = node.generators[i]
             it = self.ev(g.iter, cenv)
@@ -1097,16 +1108,18 @@ class Exec:
                     (isinstance(it, OptV) and isinstance(it.val, (SSet, SDict))):
                 return False
             for x in self.iterate(it):
-                e2 = Env(cenv)
-                e2.is_comp = True
-                self.assign(g.target, x, e2)
-                if all(self.truth(self.ev(c, e2)) for c in g.ifs):
-                    if not rec(i + 1, e2):
+                # ONE scope for the whole comprehension (as CPython's hidden function): closures created inside see the LAST value of the targets
+                self.assign(g.target, x, cenv)
+                if all(self.truth(self.ev(c, cenv)) for c in g.ifs):
+                    if not rec(i + 1, cenv):
                         return False
             return True
         e0 = Env(env)
         e0.is_comp = True
-        return out if rec(0, e0) else None
+        try:
+            return out if rec(0, e0) else None
+        except _StopComp:
+            return out
 
     def bound_gen(self, node, env):
         """single-generator comprehension over a symbolic set/dict: -> (bound var, domain formula, env with the target bound)"""
@@ -1299,14 +1312,14 @@ class Exec:
                 di = i - (len(params) - len(defaults))
                 if di < 0:
                     raise ExcSig('TypeError', f'missing argument {p} for {c.name}')
-                env.v[p] = self.ev(defaults[di], c.env)
+                env.v[p] = c.default_vals[di] if getattr(c, 'default_vals', None) is not None else self.ev(defaults[di], c.env)
         if a.vararg is not None:
             env.v[a.vararg.arg] = tuple(args[len(params):])
-        for p, d in zip(a.kwonlyargs, a.kw_defaults):
+        for j_, (p, d) in enumerate(zip(a.kwonlyargs, a.kw_defaults)):
             if p.arg in kw:
                 env.v[p.arg] = kw.pop(p.arg)
             elif d is not None:
-                env.v[p.arg] = self.ev(d, c.env)
+                env.v[p.arg] = c.kw_default_vals[j_] if getattr(c, 'kw_default_vals', None) is not None else self.ev(d, c.env)
             else:
                 raise ExcSig('TypeError', f'missing keyword argument {p.arg}')
         if a.kwarg is not None:
@@ -1394,7 +1407,7 @@ class Exec:
     def s_FunctionDef(self, s, env):
         f = env.function_frame()
         parent = f.fn if f is not None else None
-        env.v[s.name] = Closure(s, env, s.name, cls=parent.cls if parent else None, module=parent.module if parent else None)
+        env.v[s.name] = self._def_time_defaults(Closure(s, env, s.name, cls=parent.cls if parent else None, module=parent.module if parent else None), env)
 
     def s_Return(self, s, env):
         raise Ret(self.ev(s.value, env) if s.value is not None else None)
@@ -1708,6 +1721,21 @@ class Exec:
                     return
             self.block(s.orelse, env)
             return
+        if isinstance(it, list):
+            # a for loop over a list indexes the LIVE list (appends / deletions in the body are seen)
+            k_ = 0
+            while k_ < len(it):
+                x = it[k_]
+                k_ += 1
+                self.assign(s.target, x, env)
+                try:
+                    self.block(s.body, env)
+                except Cont:
+                    continue
+                except Brk:
+                    return
+            self.block(s.orelse, env)
+            return
         try:
             xs = self.iterate(it)
         except Unsupported:
@@ -1725,6 +1753,10 @@ class Exec:
             except Brk:
                 return
         self.block(s.orelse, env)
+
+
+class _StopComp(Exception):
+    pass
 
 
 def _assigned_names(stmts):
